@@ -296,6 +296,9 @@ func runC08(w *World, r *Report) {
 	r.refile("C05/pair-expansion", "C08/key-list-as-pairs", func(sr *Report) { wireMatch(w, buildWire(w, sr), sr) }, func(o Obligation) bool {
 		return strings.Contains(o.Key, "key list contributes") || strings.Contains(o.Key, "each pair's key is the text")
 	})
+	// "zchar[n] versus explicit NUL right-padding", "explicit default options versus none": the NUL pad character reaches the
+	// generators in two spellings (the parser's for zchar[n] / @rightPad, the option value's as written); every target recognises both
+	r.refile("C03/pad-spelling", "C08/pad-spelling", func(sr *Report) { wirePadSpellings(w, buildWire(w, sr), sr) }, nil)
 	// ---- 1. alias normalisation ----
 	const ruleAlias = "C08/alias-normalisation"
 	sws := normalisingSwitches(w)
